@@ -94,15 +94,21 @@ PROPS.update({
         "design_ref": "DESIGN.md 4/C07",
         "level_text": "Partial, proof of function contracts: every PDU built by send_file_segment / send_eof / send_prompt / send_ack is handed to the "
                       "transport with the configured destination, a header whose identifiers, mode, direction, CRC and file-size flags come from the "
-                      "configuration and whose length field equals the payload's encoded length; a file-data PDU carries exactly the offset and bytes "
-                      "returned by get_file_segment, which never returns more than the requested length / configured segment size and reads at the "
-                      "requested offset; send_missing_data consumes exactly the first queued request, restores nothing it should not and never moves the "
-                      "progress; send_eof sends the stored EOF once per arming; send_pdu's dispatch reaches the emitters only as its guard allows. "
-                      "UNDER ASSUMED file contracts (seek/position/read of std::fs::File as stubs). BOUNDED: the NAK splitter and de-duplication of "
+                      "configuration and whose length field equals the payload's encoded length; a file-data PDU carries the offset it was read at and "
+                      "exactly the source file's bytes at that offset (file_slice of the abstract file content), never more than the requested length / "
+                      "configured segment size and nothing beyond the end of the file. FIRST PASS: first_pass_inv (read position == progress figure "
+                      "while in SendMetadata/SendData) is preserved by send_pdu and by every control function (process_pdu, handle_timeout, suspend, "
+                      "resume, cancel, abandon, shutdown, handle_fault); a first-pass emission starts at the progress figure and moves it to the end of "
+                      "the bytes emitted (in order, no gap, no overlap); a retransmission (send_missing_data) consumes exactly the first queued request, "
+                      "leaves the read position and the progress where they were; the EOF is prepared only when the figure equals the file length. "
+                      "send_eof sends the stored EOF once per arming; send_pdu's dispatch reaches the emitters only as its guard allows. "
+                      "UNDER ASSUMED file contracts (seek/position/read/len of std::fs::File as stubs over an abstract (bytes, cursor) file; get_handle "
+                      "hands out the transaction's one handle, opened at position 0). BOUNDED: the NAK splitter and de-duplication of "
                       "process_pdu (iterator chain + HashSet, a stub in the Verus unit) is checked on the real code through the hook "
                       "verif_pending_requests: for every NAK list of <= 2 requests over a small offset range the queue holds exactly the requested bytes, "
-                      "split to the segment size, markers kept, no duplicates. NOT decided: send_metadata (iterator chain), that the first pass tiles the file once in order (state machine "
-                      "across calls), that the EOF checksum is the file's checksum (get_checksum is a stub; the checksum routine itself is C14).",
+                      "split to the segment size, markers kept, no duplicates. NOT decided: send_metadata (iterator chain: names/size in the Metadata PDU), "
+                      "that the EOF checksum is the file's checksum (get_checksum is a stub; the checksum routine itself is C14), that the initial state "
+                      "built by new() satisfies first_pass_inv (0 == 0 by inspection; new() is outside the unit).",
         "level_note": VERUS_NOTE + "File I/O stubs vx_stream_position/vx_seek_start/vx_read_up_to/vx_file_len replace `<io call>.map_err(..)?` by declared rewrites; "
                       "PDUPayload::encoded_len is uninterpreted here (its agreement with the encoder is property C05).",
     },
